@@ -6,7 +6,7 @@ from . import pure
 NAMES = {10: 'Open', 11: 'OpenPoll', 12: 'Accept', 13: 'Write', 14: 'WriteV', 15: 'Read', 16: 'Shutdown',
          17: 'DropStream', 18: 'Deliver', 19: 'SendDgram', 20: 'GetDgram', 21: 'BindReq', 22: 'BindPoll',
          23: 'NextBind', 24: 'BindReply', 25: 'BindDrop', 26: 'DropMux', 27: 'Inject', 28: 'End', 29: 'Permits',
-         30: 'BridgeStart', 31: 'BridgePoll', 32: 'LocalFeed'}
+         30: 'BridgeStart', 31: 'BridgePoll', 32: 'LocalFeed', 33: 'DropDeliver'}
 OPC = ['Connect', 'Acknowledge', 'Reset', 'Finish', 'Push', 'Bind', 'Datagram']
 
 
@@ -71,8 +71,11 @@ def first_diff(case, impl, model):
         if a != b:
             sec = "?"
             if a is not None and b is not None:
-                for nm, x, y in zip(("result", "wakes", "wireA", "wireB", "done"), a, b):
-                    if x != y:
+                # the most telling differing section of this label: what was answered or put on the wire
+                # comes before which wakers fired
+                diff = [nm for nm, x, y in zip(("result", "wakes", "wireA", "wireB", "done"), a, b) if x != y]
+                for nm in ("result", "wireA", "wireB", "done", "wakes"):
+                    if nm in diff:
                         sec = nm
                         break
             return k, l, sec, a, b
@@ -115,6 +118,12 @@ class Trace:
             res, wakes, wa, wb, done = self.outs[k]
             op = l[0]
             emitted = [parse_msgs(wa), parse_msgs(wb)]
+            if op == 33:
+                d = 1 - l[1]
+                if res == [0, 0] and link[d]:
+                    m = link[d].pop(0)
+                    if m[0] == 'frame' and m[1] in (2, 3):
+                        got_end.add((l[1], m[2]))
             if op == 18:
                 d = l[1]
                 if res == [0] and link[d]:
@@ -212,10 +221,10 @@ LABEL_SETS = {
     'C03': {13, 14, 15, 18},
     'C04': {13, 14, 15, 18, 12},
     'C05': {13, 14, 15, 16, 18},
-    'C06': {17, 18, 10, 11, 15, 13},
+    'C06': {17, 18, 10, 11, 15, 13, 33},
     'C07': {10, 11, 12, 18},
-    'C08': {26, 28, 29, 18, 11, 12, 13, 15, 20, 22, 23},
-    'C10': {27, 18},
+    'C08': {26, 28, 29, 18, 11, 12, 13, 15, 20, 22, 23, 33},
+    'C10': {27, 18, 33},
     'C11': {19, 20, 18},
     'C15': {21, 22, 23, 24, 25, 18},
     'C13': {30, 31, 32},
